@@ -8,7 +8,7 @@ from vf.monitors import contracts
 LEVEL = 'exploration'
 RULE = ('case ids < 540: the full grid {4,8,16 bit} x {sym,asym} x 9 magnitudes (1e-12..3e38) x '
         '{two-sided, positive, negative, point, zero} x {float32,float64}, each with ALL integer codes of the '
-        'width (exhaustive over codes) and 257 random in-range values; larger ids: random tensors of rank 0-4 '
+        'width (exhaustive over codes) and 257 random in-range values; id 540: the repository\'s own test suite run with the contracts attached; larger ids: (every 8th) the public calibrate/quantize pipeline on generated models so that the contracts observe the library\'s own calls, otherwise random tensors of rank 0-4 '
         'with per-axis parameters on any dimension, permutation commutation, bias quantisation.  Contracts '
         '(icontract post-conditions) run on every library call.  distinct by (bits, symmetry, magnitude, '
         'kind, dtype | shape, axis); non-trivial iff the range is not the all-zero one')
@@ -225,9 +225,61 @@ def bias_case(ctx, rng):
   return {}
 
 
+def pipeline_case(ctx, case, rng):
+  """Drives the real calibrate()/quantize()/validate() pipeline so that the contracts observe the calls the library itself makes."""
+  from vf.props import common
+  from vf.gen import data as gdata
+  before = dict(contracts.EVALS)
+  n = 0
+  for spec, src, datasets, lab, run, acc in common.graph_workload(ctx, case, rng, safe_regex=True, n_random=2,
+                                                                  data_mix=[('normal',), ('tiny',), ('huge',), ('zero', 'normal'), ('negative',), ('positive',)]):
+    n += 1
+  ctx.count('pipeline_runs', n)
+  ctx.count('pipeline_contract_evals', sum(contracts.EVALS.values()) - sum(before.values()))
+  ctx.key = f'pipeline/{case}'
+  ctx.nontrivial = n > 0
+  _report_contracts(ctx)
+  return {}
+
+
+def repo_tests_under_contracts(ctx):
+  """The repository's own test suite with the contracts attached: a contract that fires there is too strict or a defect."""
+  import json, os, subprocess, sys
+  from vf.run import driver
+  dump = os.path.join(driver.ROOT, '.work', f'contract_dump_{os.getpid()}.json')
+  env = driver.child_env({'VF_CONTRACT_DUMP': dump})
+  env.pop(driver.GUARD, None)
+  try:
+    subprocess.run([driver.PY, '-m', 'pytest', '-q', '-p', 'no:cacheprovider', '-p', 'vf.monitors.pytest_plugin', '--timeout=900',
+                    '--continue-on-collection-errors', 'ai_edge_quantizer'], cwd=driver.REPO, env=env, capture_output=True, timeout=1500)
+    with open(dump) as f:
+      d = json.load(f)
+  except Exception:  # pylint: disable=broad-except
+    ctx.count('repo_tests_under_contracts_unavailable')
+    return {'outcome': 'skipped', 'reason': 'repo tests under contracts unavailable'}
+  finally:
+    try:
+      os.remove(dump)
+    except OSError:
+      pass
+  ctx.key = 'repo_tests_under_contracts'
+  ctx.nontrivial = True
+  for k, v in d['evals'].items():
+    ctx.count('repo_tests_contract_evals:' + k, v)
+  ctx.count('repo_tests_contract_evals', sum(d['evals'].values()))
+  for f in d['failures']:
+    ctx.violation('contract:' + f['contract'] + ':' + f['kind'], dict(f['features'] or {}, observed_in='repository_test_suite'), f['detail'])
+  ctx.sample = {'repo_tests_under_contracts': d['evals'], 'failures': len(d['failures'])}
+  return {}
+
+
 def run_case(ctx, case, rng):
+  if case == len(GRID):
+    return repo_tests_under_contracts(ctx)
   if case < len(GRID):
     return grid_case(ctx, case, rng)
+  if case % 8 == 5:
+    return pipeline_case(ctx, case, rng)
   if rng.random() < 0.2:
     return bias_case(ctx, rng)
   return axis_case(ctx, rng)
